@@ -41,6 +41,13 @@ fn main() {
         run: ansmsg::ans_msg,
     },
     Target {
+        name: "ans_sizes",
+        props: "C18",
+        policy: PanicPolicy::AllViolations,
+        max_len: 1024,
+        run: ansmsg::ans_sizes,
+    },
+    Target {
         name: "c11_suffix",
         props: "C11",
         policy: PanicPolicy::AllViolations,
